@@ -51,7 +51,7 @@ META.update({
              "strip is idempotent (lemma). Reconstruction (proj_old/proj_new), exact ops, self-diff empty, MOVED, formatter.diff and "
              "gen_pre_as_diff read-back: bounded layer over 7 real compiled rulebooks x all pairs of small trees (depth<=2/3) x 14 vendor "
              "formatters. 4 known findings (MOVED by index, old order of MOVED rows, unchanged %rewrite groups absent).",
-        note="call_diff_logic (assumed contract), rewrite_diff, the %ignore_case branch: bounded only; list.sort opaque (A3); composition across sidecars by name",
+        note="call_diff_logic (assumed contract), rewrite_diff: bounded only; list.sort opaque (A3); composition across sidecars by name",
     ),
     "C04": dict(
         technique="contract-based deductive verification of the indentation parse chain (shared with C05); " + _B + " for every vendor's join/split round trip",
